@@ -8,12 +8,7 @@
 (* (REJECT line) and skipped, so that the rest of the file is still        *)
 (* checked.                                                                *)
 (***************************************************************************)
-EXTENDS Deque, TLC, Json, IOUtils
-
-VARIABLE l   \* index of the next trace line
-
-Trace == ndJsonDeserialize(IOEnv.TRACE)
-N == Len(Trace)
+EXTENDS Deque, TraceBase
 
 Min2(a, b) == IF a < b THEN a ELSE b
 
@@ -45,22 +40,14 @@ TStep ==
          /\ (e.op \in {"pop", "poplast"} => res'.v = e.rv /\ res'.ok = e.rok)
          /\ ObsOK(e, q')
 
-\* First line of the next history (or N+1).
-NextNew(i) ==
-  CHOOSE j \in (i + 1)..(N + 1) :
-    /\ (j = N + 1 \/ Trace[j].op = "new")
-    /\ \A k \in (i + 1)..(j - 1) : Trace[k].op # "new"
-
 TSkip ==
   /\ l <= N
   /\ ~ENABLED TStep
-  /\ PrintT(<<"REJECT", l, Trace[l].h>>)
+  /\ Reject(l)
   /\ l' = NextNew(l)
   /\ q' = <<>> /\ res' = NoRes
 
 TNext == TStep \/ TSkip
 TSpec == TInit /\ [][TNext]_<<q, res, l>>
 
-Mark == TLCSet(1, IF TLCGet(1) > l THEN TLCGet(1) ELSE l)
-Finished == TLCGet(1) = N + 1 /\ PrintT(<<"FINISHED", N>>)
 =============================================================================
